@@ -31,6 +31,7 @@ import (
 	"github.com/mimiro-io/datahub/internal/conf"
 	"github.com/mimiro-io/datahub/internal/verifrt/engine"
 	"github.com/mimiro-io/datahub/internal/verifrt/model"
+	"github.com/mimiro-io/datahub/internal/verifrt/vsync"
 )
 
 type BackupParams struct {
@@ -347,6 +348,102 @@ func vSettle(store, location string) {
 	}
 }
 
+// ---- SCHED: a backup run next to a writer -----------------------------------------------------
+
+// vRunSchedBackup: client threads of "backup" and write ops under the controlled scheduler (DB.Backup, DB.MaxVersion,
+// commits and locks are scheduling points); afterwards one quiescent backup run, a restore, and the comparison of
+// the restored hub with the model of all writes (one writer thread, so their order is fixed).
+func vRunSchedBackup(w *VWorld, sc *SchedScenario, prefix []int, horizon int) *vsync.Execution {
+	h := w.NewHist()
+	for _, n := range sc.Datasets {
+		if _, err := w.Dsm.CreateDataset(h.DsName(n), nil); err != nil {
+			return &vsync.Execution{HarnessErr: err.Error()}
+		}
+		h.M.Create(n)
+	}
+	location := filepath.Join(w.Dir, "backup")
+	if w.Bm == nil {
+		w.Bm = vNewBackupManager(w, location, false)
+	}
+	apply := func(op VOp) error {
+		if op.K == "backup" {
+			if pn := vRunBackup(w.Bm); pn != "" {
+				return fmt.Errorf("backup run panicked: %s", pn)
+			}
+			return nil
+		}
+		if err := h.vApplyImpl(op); err != nil {
+			return err
+		}
+		h.ModelApply(op)
+		return nil
+	}
+	for _, op := range sc.Pre {
+		if err := apply(op); err != nil {
+			return &vsync.Execution{HarnessErr: "pre: " + err.Error()}
+		}
+	}
+	s := vsync.NewSched(prefix, horizon)
+	for _, n := range append([]string{datasetCore}, sc.Datasets...) {
+		if ds := w.Dsm.GetDataset(h.DsName(n)); ds != nil {
+			s.NameLock(&ds.WriteLock, "WriteLock:"+n)
+		}
+	}
+	errs := make([]string, len(sc.Threads))
+	var bodies []func()
+	var names []string
+	for ti, th := range sc.Threads {
+		ti, th := ti, th
+		names = append(names, fmt.Sprintf("client%d", ti))
+		bodies = append(bodies, func() {
+			for _, op := range th {
+				if err := apply(op); err != nil {
+					errs[ti] = err.Error()
+				}
+			}
+		})
+	}
+	timedOut := s.Run(bodies, names, 30*time.Second)
+	x := vsync.Collect(s, timedOut)
+	if x.Fatal() || len(x.Panics) > 0 {
+		return x
+	}
+	for _, e := range errs {
+		if e != "" {
+			x.Viol = append(x.Viol, "operation failed: "+e)
+		}
+	}
+	// one more run with nothing else going on, then restore
+	if pn := vRunBackup(w.Bm); pn != "" {
+		x.Viol = append(x.Viol, "the quiescent backup run panicked: "+pn)
+		return x
+	}
+	rdir, err := os.MkdirTemp(VScratchBase(), "verif-restore-")
+	if err != nil {
+		return &vsync.Execution{HarnessErr: err.Error()}
+	}
+	defer os.RemoveAll(rdir)
+	rw, err := vRestore(location, rdir, false)
+	if err != nil {
+		x.Viol = append(x.Viol, "restoring the backup failed: "+err.Error())
+		return x
+	}
+	defer rw.Close()
+	hr := &VHist{W: rw, Tag: h.Tag, M: h.M}
+	rc := &VCheck{H: hr, SkipKnownC03: true, ScopedOnly: true}
+	rc.CheckLatest(sc.IDs)
+	rc.CheckFeed()
+	for _, v := range rc.Viol {
+		clause := v.Key
+		if i := strings.Index(clause, "|"); i >= 0 {
+			clause = clause[:i]
+		}
+		x.Viol = append(x.Viol, "C20:restored-after-concurrent-run:"+clause+"::after a backup run next to a writer and one more quiescent run, the restored hub differs from the source: "+v.What)
+	}
+	x.Outcome = fmt.Sprintf("restored-ok=%v", len(rc.Viol) == 0)
+	return x
+}
+
 // ---- foreign locations ----------------------------------------------------
 
 func vDirDigest(dir string) string {
@@ -528,6 +625,15 @@ func init() {
 			os.Exit(1)
 		}
 	})
+	engine.RegisterWorker("sched-backup", func(args []string) {
+		defer func() {
+			if vWorkerWorld != nil {
+				vWorkerWorld.Destroy()
+			}
+		}()
+		vWorldMaxHists = 150 // the backup file and the restore grow with every execution on the same world
+		engine.ServeWorker(vSchedWorker(vRunSchedBackup))
+	})
 	engine.RegisterWorker("backup-foreign", func(args []string) {
 		engine.ServeWorker(func(task []byte) interface{} {
 			var c ForeignCase
@@ -539,7 +645,7 @@ func init() {
 	})
 
 	engine.RegisterCheck("C20", func(r *engine.Run) {
-		r.Rule = "SEQ: every history up to the stated depth over {write A (contents cycle v1,v2,deleted,ref), write B, delete dataset B, create dataset B, backup run, hub restart} on a store of its own with the real BackupManager; after every history ending in a backup run the location is restored into an empty directory (native: badger Load; rsync: copy of the mirror), a hub is opened on it and dataset list, latest views, change feeds with tokens, relationship queries and namespaces are compared with the reference model of the prefix committed when that run started; states deduplicated by canonical raw-key scan of the source + canonical source state at the last backup + cursor flags. ENUM: every foreign-location case (other store's backup / id file only / four near-miss ids) x mode x restarted x 1-2 runs x cursor carried: byte-identical location before and after; distinct = distinct canonical states + foreign cases"
+		r.Rule = "SEQ: every history up to the stated depth over {write A (contents cycle v1,v2,deleted,ref), write B, delete dataset B, create dataset B, backup run, hub restart} on a store of its own with the real BackupManager; after every history ending in a backup run the location is restored into an empty directory (native: badger Load; rsync: copy of the mirror), a hub is opened on it and dataset list, latest views, change feeds with tokens, relationship queries and namespaces are compared with the reference model of the prefix committed when that run started; states deduplicated by canonical raw-key scan of the source + canonical source state at the last backup + cursor flags. SCHED: a backup run next to a writer thread (DB.Backup, DB.MaxVersion, commits and locks as scheduling points, preemption bounded), then one quiescent run, restore, comparison with all committed writes. ENUM: every foreign-location case (other store's backup / id file only / four near-miss ids) x mode x restarted x 1-2 runs x cursor carried: byte-identical location before and after; distinct = distinct canonical states + foreign cases"
 		r.Assumptions = []string{"badger Backup/Load are trusted to round-trip the entries they are given", "the restore procedure is the documented one: badger Load of datahub-backup.kv into an empty store (native) or a copy of the mirrored directory (rsync)", "a backup run that panics is not a completed run"}
 		pool := model.Pool(0)
 		ix := func(n string) int { return model.PoolIndex(pool, n) }
@@ -578,6 +684,18 @@ func init() {
 			params, _ := json.Marshal(BackupParams{Mode: "rsync", IDs: []string{"e1", "e2", "e3"}, Unsettled: true})
 			engine.RunSeq(r, engine.SeqSpec{Name: "c20-rsync-unsettled", WorkerArgs: []string{"worker", "backup"},
 				Alphabet: vOpsJSON([]VOp{alpha[0], alpha[1]}), Params: params, Depth: 3, Budget: 60 * time.Second})
+		}
+		// SCHED: a native backup run next to a writer, then a quiescent run: nothing the writer committed may be missing
+		{
+			ix2 := func(n string) int { return model.PoolIndex(pool, n) }
+			sc := SchedScenario{Name: "B1-backup-run-vs-writer", Datasets: []string{"A"}, IDs: []string{"e1", "e2", "e3"},
+				Pre: []VOp{{K: "batch", DS: "A", Ents: []VEnt{{"e1", ix2("v1")}}}, {K: "backup"}},
+				Threads: [][]VOp{{{K: "backup"}}, {{K: "batch", DS: "A", Ents: []VEnt{{"e1", ix2("v2")}}}, {K: "batch", DS: "A", Ents: []VEnt{{"e2", ix2("r1")}}}}}}
+			bound, budget := 1, 60
+			if !r.Quick() {
+				bound, budget = 3, 900
+			}
+			engine.RunSched(r, engine.SchedSpec{Name: sc.Name, WorkerArgs: []string{"worker", "sched-backup"}, Scenario: sc, Bound: bound, Horizon: 1500, BudgetS: budget})
 		}
 		// foreign locations
 		var cases []ForeignCase
